@@ -55,7 +55,7 @@ def write_cfg(path, classes, bound, export=True, invariants=True):
     return b
 
 
-def generate(name, classes, bound, coverage=True):
+def generate(name, classes, bound, coverage=False):
     """TLC over MC_merge: theorems checked on the spec, transition table exported"""
     wd = tlc.workdir("gen-" + name)
     cfg = os.path.join(wd, "MC.cfg")
@@ -163,10 +163,14 @@ def run_merge_check(report, families, seed, tier, extra_assumptions=None):
                                                if k in classes or k == "Init"},
                            "theorems": ["Inv_Total", "Inv_Order", "Inv_SpecConforms", "Inv_FailAtomic",
                                         "Inv_Perm", "Inv_Member"]})
-        # vacuity: every selected class must have produced transitions
+        # vacuity: every selected class must have produced transitions (counted from the exported transition table;
+        # TLC's own -coverage costs ~20 s per run and is only used by `./check selftest`)
+        per = {}
+        for _, m in gen["cases"]:
+            per[m["cls"]] = per.get(m["cls"], 0) + 1
+        cov["tlc"][-1]["cases_per_class"] = per
         for c in classes:
-            n = (st.get("coverage") or {}).get(c, {}).get("generated", 0)
-            if n == 0:
+            if per.get(c, 0) == 0:
                 report.machinery_error("class %s produced no transition in family %s" % (c, name))
         events, index = execute_cases(gen, seed, name + ":")
         for e in events:
